@@ -112,7 +112,7 @@ def run(ctx):
     mod = f"---- MODULE MCPP ----\nEXTENDS PqProgram\nIPDef == {ipdef}\nRDef == {rdef}\nTIDef == {tidef}\nLDef == {ldef}\nSDef == {sdef}\n====\n"
     out = {}
     mod_small = mod.replace(f"LDef == {ldef}", "LDef == << <<1, 0>>, <<0, 1>> >>").replace(f"SDef == {sdef}", "SDef == { <<0, 1, 2>> }")
-    for part, sim in (("nest", None), ("trip", 4 if quick else 8), ("prep", 6 if quick else 10), ("prep-exhaustive", None)):
+    for part, sim in (("nest", None), ("trip", 4 if quick else 6), ("prep", 6 if quick else 8), ("prep-exhaustive", None)):
         real_part = part.split("-")[0]
         res = run_tlc("MCPP", "MCPP.cfg", generated={"MCPP.tla": mod_small if part == "prep-exhaustive" else mod,
                                                      "MCPP.cfg": CFG % (real_part, 3, 3, 4, 4 if part == "prep-exhaustive" else 5)}, timeout=2400,
